@@ -205,7 +205,8 @@ class Heap:
         if name in self.fields:
             return self.fields[name]
         if name not in self.base:
-            self.base[name] = fresh(f"F_{name}{self.tag}", ArrII)
+            # `$$name` = array-valued ghost field (e.g. prefix sums): object -> (Int -> Int)
+            self.base[name] = fresh(f"F_{name}{self.tag}", ArrIA if name.startswith("$$") else ArrII)
         return self.base[name]
 
     def get(self, name, obj):
